@@ -13,6 +13,7 @@ Definition show_op (o : op) : string :=
   | ODeclare => "declare"
   | OPushIterTry => "pushitertry"
   | OBody b c s => "body" ++ string_of_nat b ++ "," ++ string_of_nat c ++ "," ++ string_of_nat s
+  | OBodyIn b c s => "body" ++ string_of_nat b ++ "," ++ string_of_nat c ++ "," ++ string_of_nat s
   | OPopIterTry => "popitertry"
   | OPopScope => "popscope"
   | OJump t => "j" ++ string_of_nat t
@@ -42,3 +43,14 @@ Definition forof_case (p : nat) (it brks conts : list Z) : string :=
   end ++ "|" ++
   let '(L, N, C, _) := spec Z b it 6 in
   show_log L ++ "/" ++ string_of_nat N ++ "/" ++ string_of_bool C ++ "/" ++ string_of_bool (nodup_nat (map fst L)).
+
+Definition forin_case (p : nat) (it brks conts : list Z) : string :=
+  let b := body_of brks conts in
+  String.concat ";" (map show_op (cforin p)) ++ "|" ++
+  match run_halt Z (-1)%Z b 2 (cforin 0) (20 * (2 + List.length it)) (mk Z 0 it (RNone Z) 0%Z [(5, None)] 6 2 [] 0 false) with
+  | Some s => show_log (log Z s) ++ "/" ++ string_of_bool (closed Z s) ++ "/" ++
+              string_of_bool (nodup_nat (map fst (log Z s)) && Nat.eqb (List.length (frames Z s)) 1 && Nat.eqb (trys Z s) 2)
+  | None => "nofuel"
+  end ++ "|" ++
+  let '(L, N, C, _) := spec_in Z b it 6 in
+  show_log L ++ "/" ++ string_of_bool C ++ "/" ++ string_of_bool (nodup_nat (map fst L)).
